@@ -28,6 +28,11 @@ structure EngSt where
       such a size, page aligned after a max-size update, 0 = no limit) -/
   hdrMax : Nat := 0
   lastOptMax : Nat := 0       -- `Options.MaxSize` of the last Open
+  /-- Opens (plain / with max-size update) that met a state on which the first absorb rule (`Alloc.absorbOverflow`:
+      data end below meta end and below the limit) raises the data end marker, the precise rule
+      (`FileSt.needAbsorb`, Model/AbsorbP.lean) does not: the traces discriminate the two rules there -/
+  absorbDiffPlain : Nat := 0
+  absorbDiffResize : Nat := 0
   resizesReplayed : Nat := 0  -- `resize-*` lines computed by the model (`FileSt.resizeWith`)
   resizesAdopted : Nat := 0   -- `resize-*` lines after which the implementation's snapshot was adopted
   /-- `resize-shrink` lines whose release transaction succeeds in the model but failed in the implementation
@@ -136,6 +141,11 @@ def commitWritesMarkers (f : FileSt) (tx : TxSt) : Bool :=
   let nwal := if walUpd then predictWalPages newWal.length f1.alloc.pageSize else 0
   tx2.ta.updated || nwal > 0
 
+/-- the first absorb rule would raise the data end marker, the precise rule does not -/
+def absorbRuleDiffers (f : FileSt) : Bool :=
+  decide (f.alloc.data.endMarker < f.alloc.mta.endMarker ∧ (f.alloc.maxPages = 0 ∨ f.alloc.data.endMarker < f.alloc.maxPages)) &&
+    !f.needAbsorb
+
 /-- `Open` of an existing file (plain, or with `FlagUpdMaxSize` on the `resize-*` lines): the model
     computes the state from the committed in-memory state and the two header fields it does not
     carry (persisted limit in bytes, persisted data end marker); the next `S` line is compared. -/
@@ -152,21 +162,30 @@ def openExisting (s : EngSt) (rest : List String) (line : String) (isResize : Bo
     -- the header's limit and data end marker
     let f1 : FileSt := { s.f with alloc := { s.f.alloc with maxPages := s.hdrMax / ps, data := { s.f.alloc.data with endMarker := d } } }
     let r := f1.resizeWith k n
+    -- does one of the absorb steps of this Open meet a state on which the two rules differ?
+    let x0 : FileSt := if k == RKind.bound || k == RKind.boundShrink
+      then { f1 with alloc := { f1.alloc with maxPages := n } } else f1
+    let x1 : FileSt := { x0.reopenP with alloc := { x0.reopenP.alloc with maxPages := n } }
+    let differs := absorbRuleDiffers x0 || ((k == RKind.grow || k == RKind.shrink || k == RKind.boundShrink) && absorbRuleDiffers x1)
+    let s := if !differs then s else
+      if isResize then { s with absorbDiffResize := s.absorbDiffResize + 1 } else { s with absorbDiffPlain := s.absorbDiffPlain + 1 }
     let hm := match k with
       | .same => s.hdrMax
       | .bound => s.hdrMax
       | _ => n * ps
     let alt :=
       if r.2 != ReleaseRes.done then none
-      else if k == RKind.shrink then some (f1.reopen.resizeShrinkFailed n, d)
-      else if k == RKind.boundShrink then some ((f1.openAt n d).resizeShrinkFailed n, d)
+      else if k == RKind.shrink then
+        some (f1.reopenP.resizeShrinkFailed n, (f1.reopenP.resizeShrinkFailed n).alloc.data.endMarker)
+      else if k == RKind.boundShrink then
+        some ((f1.openAt n d).resizeShrinkFailed n, ((f1.openAt n d).resizeShrinkFailed n).alloc.data.endMarker)
       else none
-    let s := { s with f := r.1, tx := none, diskDE := some (hdrDataEndAfter d r), hdrMax := hm, alt := alt,
+    let s := { s with f := r.1, tx := none, diskDE := some (hdrDataEndAfter d k r), hdrMax := hm, alt := alt,
                       resized := s.resized || k == RKind.shrink || k == RKind.bound || k == RKind.boundShrink }
     if isResize then { s with resizesReplayed := s.resizesReplayed + 1 } else s.ok
   | _, _ =>
     -- failed open-time update or unknown header: adopt the implementation's snapshot
-    let s := { s with f := s.f.reopen, tx := none, resync := true, resized := true, diskDE := none }
+    let s := { s with f := s.f.reopenP, tx := none, resync := true, resized := true, diskDE := none }
     if isResize then { s with resizesAdopted := s.resizesAdopted + 1 } else s.ok
 
 /-- process one trace line -/
